@@ -12,7 +12,7 @@ from vlib import build
 from vlib.prop import Check, Native, sx_str
 from vlib.view import view, L
 from mirsym import Program, Interp, models, Lazy, Opaque, StringVal, syn_models, harness_models  # noqa: F401
-from props.recv_common import actual_errors, list_items, model_str, ident_validity
+from props.recv_common import actual_errors, list_items, model_str, ident_validity, replay_panic
 
 OPTS = ("no_dym",)
 
@@ -74,6 +74,11 @@ def map_job(ck, prog, natbin, kind, K, segs, quick):
     uniq = [0]
     cnt = 0
     for l in leaves:
+        if l.status == "panicked":
+            pm = ck.model_of(list(l.pc) + ident_validity(l)) or ck.model_of(l.pc)
+            pit = list_items(l, "items*")
+            replay_panic(ck, native, kind, l, None if pm is None else "(map %s %s)" % (kind, sx_str(", ".join(witness_parts(l, pit, pm, uniq)))), {"crate": "hconv"})
+            continue
         if l.status != "returned":
             ck.obligations += 1
             ck.engine("%s: leaf %s %s" % (kind, l.status, l.info or l.panics))
